@@ -45,11 +45,30 @@ structure CircReq where
   nc : Nat
   nshots : Nat
   ops : List Op
+  /-- `circfrom`: the shots do not start in |0..0> with a zero register but in the given basis states / words (the situation
+  the real run was in after a randomising prelude that split the shots over several ranges) -/
+  init : Option (List Shot) := none
+
+def parseInit (nq : Nat) : List String → Option (List Shot)
+  | [] => some []
+  | b :: w :: rest => do
+    let qs ← if b = "-" then some [] else b.toList.mapM fun c => if c = '1' then some true else if c = '0' then some false else none
+    if qs.length ≠ nq then none else
+    let w ← word? w
+    let tl ← parseInit nq rest
+    some (⟨qs, w⟩ :: tl)
+  | _ => none
 
 def parseCirc (segs : List (List String)) : Option CircReq :=
   match segs with
   | ["circ", be, nq, nc, sh] :: opsegs => do
-    some ⟨← parseBackend be, ← nat? nq, ← nat? nc, ← nat? sh, ← parseOps opsegs⟩
+    some ⟨← parseBackend be, ← nat? nq, ← nat? nc, ← nat? sh, ← parseOps opsegs, none⟩
+  | ["circfrom", be, nq, nc, sh] :: ("init" :: ini) :: opsegs => do
+    let nqv ← nat? nq
+    let shots ← parseInit nqv ini
+    let n ← nat? sh
+    if shots.length ≠ n then none else
+    some ⟨← parseBackend be, nqv, ← nat? nc, n, ← parseOps opsegs, some shots⟩
   | _ => none
 
 def handle (line : String) : String :=
@@ -73,10 +92,22 @@ def handle (line : String) : String :=
     match parseCirc segs with
     | some r => showRes (circText r.nc r.nshots r.ops.length) (run r.be r.nq r.nc r.nshots r.ops)
     | none => "bad-op"
+  | ("circfrom" :: _) :: _ =>
+    match parseCirc segs with
+    | some r =>
+      let shots := r.init.getD []
+      showRes (circText r.nc r.nshots r.ops.length)
+        (match buildAll r.nq r.nc r.ops with
+         | .err c p => .err ("build:" ++ c) p
+         | .panic st => .panic st
+         | .ok () => Res.mapM (runShot r.be r.nq r.ops) shots)
+    | none => "bad-op"
   | ["views", nc] :: cs :: _ =>
     match nat? nc, words? cs with
     | some nc, some cs => viewsText nc cs
     | _, _ => "bad-op"
+  -- after run k with n shots of one object the register holds exactly n words (`execute` allocates `zeros(nr_shots)`)
+  | ["nwords", _k, n, _hist] :: _ => (match nat? n with | some n => s!"ok {n}" | none => "bad-op")
   | _ => "bad-op"
 
 /-! ### spec mode: the property evaluated on the implementation's answer -/
@@ -137,10 +168,12 @@ def specCirc (r : CircReq) (ans : String) : String :=
       if cs.length ≠ r.nshots then "fail register wrong-number-of-shots"
       else if cols.length ≠ r.ops.length then "fail register trace-length"
       else
-        -- per shot: the reference trace from the zeroed register / |0..0>
-        let refTrace := Spec.Register.trace r.nq r.ops (initShot r.nq)
+        -- per shot: the reference trace from the zeroed register / |0..0> (or from the shot's own start, `circfrom`)
+        let starts : List Shot := match r.init with | some l => l | none => List.replicate r.nshots (initShot r.nq)
+        let refTraces := starts.map fun sh => Spec.Register.trace r.nq r.ops sh
+        let refTrace := refTraces.headD (Spec.Register.trace r.nq r.ops (initShot r.nq))
         let bad := (List.range r.ops.length).find? fun i =>
-          cols[i]! != List.replicate r.nshots (refTrace[i]!).word
+          cols[i]! != refTraces.map fun tr => (tr[i]!).word
         match bad with
         | some i =>
           let cls := match r.ops[i]! with
@@ -150,8 +183,8 @@ def specCirc (r : CircReq) (ans : String) : String :=
             | _ => "register-write"
           s!"fail {cls} op#{i} expected-word {(refTrace[i]!).word.toNat}"
         | none =>
-          let fin := match refTrace.getLast? with | some s => s.word | none => 0
-          if cs != List.replicate r.nshots fin then "fail register final-cstate-differs-from-last-trace-entry"
+          let fins := (List.zip refTraces starts).map fun ts => match ts.1.getLast? with | some s => s.word | none => ts.2.word
+          if cs != fins then "fail register final-cstate-differs-from-last-trace-entry"
           else match checkViews r.nc cs hseg vseg sseg with
             | some e => s!"fail {e}"
             | none => "ok"
@@ -180,10 +213,12 @@ def specCheck (line : String) : String :=
         else s!"fail shuffle-bits expected {(Spec.Bits.shuffle i b).toNat}"
       | _, _ => "fail bad-request"
     | ("ranges" :: _) :: _ => "skip"
-    | ("circ" :: _) :: _ =>
+    | ("circ" :: _) :: _ | ("circfrom" :: _) :: _ =>
       match parseCirc segs with
       | some r => specCirc r ans
       | none => "fail bad-request"
+    | ["nwords", _k, n, _hist] :: _ =>
+      if ans.trimAscii.toString = s!"ok {n}" then "ok" else s!"fail views register-does-not-hold-exactly-the-N-words-of-the-run expected {n}"
     | ["views", nc] :: cs :: _ =>
       match nat? nc, words? cs with
       | some nc, some cs =>
